@@ -94,6 +94,12 @@ impl DispatchFunc {
             }));
         }
 
+        // An arm only applies when exactly its declared number of arguments was passed: the
+        // dispatcher pads missing arguments with null, which must not make an explicit null
+        // argument look like an absent one.
+        let declared_args = self.args.len() - arg_index;
+        let guard: syn::Expr = syn::parse_quote!(nargs == #declared_args);
+
         for i in 0..(max_args) {
             if arg_index >= self.args.len() {
                 elems.push(Pat::Path(PatPath {
@@ -134,7 +140,7 @@ impl DispatchFunc {
                 paren_token: token::Paren::default(),
                 elems: elems.into_iter().collect(),
             }),
-            guard: None,
+            guard: Some((token::If::default(), Box::new(guard))),
             fat_arrow_token: token::FatArrow::default(),
             body: Box::new(syn::Expr::MethodCall(syn::ExprMethodCall {
                 attrs: Vec::new(),
